@@ -6,6 +6,8 @@
                                              passes without) in a scratch worktree, write meta.json
   seedtest.py run <name> [check ids...] [--tier quick|thorough]
                                              apply seeded/<name>/patch.diff to /repo, run the checks, undo
+  seedtest.py prun <name>... [--checks C01,C02] [--tier t] [--jobs n]
+                                             the same in scratch copies of /repo and /verif (parallel; /repo untouched)
 All work on /repo is undone afterwards (git checkout -- .); demos run in a scratch worktree under /tmp.
 """
 import json
@@ -123,8 +125,77 @@ def do_run(name, checks, tier):
     return 0
 
 
+def prun_one(name, checks, tier):
+    """Run checks against a seeded change in a scratch copy of /verif bound to a scratch worktree of /repo
+    (so /repo, /verif/evidence and other runs are left alone; several can run in parallel)."""
+    dst = os.path.join(ROOT, "seeded", name)
+    meta = json.load(open(os.path.join(dst, "meta.json")))
+    if not checks:
+        checks = [meta["property"]]
+    wt = "/tmp/sw_" + name
+    sv = "/tmp/sv_" + name
+    sh(["git", "-C", REPO, "worktree", "remove", "--force", wt])
+    shutil.rmtree(sv, ignore_errors=True)
+    rc, out = sh(["git", "-C", REPO, "worktree", "add", "-q", "--detach", wt, "HEAD"])
+    if rc:
+        return name, {"error": out}
+    res = {}
+    try:
+        rc, out = sh(["git", "apply", os.path.join(dst, "patch.diff")], cwd=wt)
+        if rc:
+            return name, {"error": "patch does not apply: " + out}
+        shutil.copytree(ROOT, sv, ignore=shutil.ignore_patterns(".git", "out", "seeded"))
+        gm = os.path.join(sv, "harness", "go.mod")
+        gmt = open(gm).read().replace("=> /repo", "=> " + wt)
+        open(gm, "w").write(gmt)
+        env = dict(ENV, VERIF_REPO=wt)
+        for c in checks:
+            p = subprocess.run(["python3", os.path.join(sv, "tools", "check.py"), c, "--tier", tier], cwd=sv, env=env,
+                               stdout=subprocess.PIPE, stderr=subprocess.STDOUT, text=True, errors="replace", timeout=7200)
+            out = p.stdout
+            nviol = len([l for l in out.splitlines() if l.startswith("VIOLATION")])
+            first = next((l for l in out.splitlines() if l.startswith("   ")), "")
+            res["%s/%s" % (c, tier)] = dict(exit=p.returncode, violations=nviol, detected=(p.returncode == 1 and nviol > 0),
+                                            first=first.strip()[:300])
+            if p.returncode == 2:
+                res["%s/%s" % (c, tier)]["tail"] = out[-1200:]
+    finally:
+        sh(["git", "-C", REPO, "worktree", "remove", "--force", wt])
+        shutil.rmtree(sv, ignore_errors=True)
+    return name, res
+
+
+def do_prun(names, checks, tier, jobs):
+    from concurrent.futures import ThreadPoolExecutor
+    with ThreadPoolExecutor(max_workers=jobs) as ex:
+        futs = [ex.submit(prun_one, n, checks, tier) for n in names]
+        for f in futs:
+            name, res = f.result()
+            mp = os.path.join(ROOT, "seeded", name, "meta.json")
+            meta = json.load(open(mp))
+            if "error" in res:
+                print(name, "ERROR", res["error"])
+                continue
+            meta.setdefault("checks", {}).update({k: {kk: vv for kk, vv in v.items() if kk != "tail"} for k, v in res.items()})
+            json.dump(meta, open(mp, "w"), indent=1)
+            for k, v in res.items():
+                print("%s %s: exit=%d violations=%d %s" % (name, k, v["exit"], v["violations"], v["first"][:220]))
+                if v.get("tail"):
+                    print(v["tail"])
+    return 0
+
+
 def main():
     a = sys.argv[1:]
+    if a[0] == "prun":
+        tier, jobs, checks = "quick", 4, []
+        if "--tier" in a:
+            i = a.index("--tier"); tier = a[i + 1]; del a[i:i + 2]
+        if "--jobs" in a:
+            i = a.index("--jobs"); jobs = int(a[i + 1]); del a[i:i + 2]
+        if "--checks" in a:
+            i = a.index("--checks"); checks = a[i + 1].split(","); del a[i:i + 2]
+        return do_prun(a[1:], checks, tier, jobs)
     if a[0] == "import":
         return do_import(a[1], a[2], a[3])
     if a[0] == "run":
